@@ -187,7 +187,11 @@ def abstract_path(path):
                     parts.append(a)
             if mj[4] is not None:
                 parts.append('init')
-            if mj[5]:
+            if mj[5] == 'Char':
+                # the alphabet never changes a type *to* Char: this is a
+                # ChangeField that restates the field's current type
+                parts.append('same-field_type')
+            elif mj[5]:
                 parts.append('type')
             out.append('Chg(%s:%s)' % (field_id(mj[1], mj[2]),
                                        ','.join(parts)))
